@@ -1,4 +1,5 @@
 import AslModel.Model.Dis.M87C
+import AslModel.Model.Dis.A6800
 /-! MODEL of the jump and call decoders of code87c800.c (`DecodeJRS`, `DecodeJR`, `DecodeJP_CALL` with an immediate operand,
 `DecodeCALLV`, `DecodeCALLP`, `DecodeCondition`) – the assembler side of the TLCS-870 round trip for the statements whose
 operand is a program address.  Core only.
@@ -116,5 +117,63 @@ def head : Shape → String
   | .call => "call\t"
   | .callp => "callp\t"
   | .callv n => "callv\t" ++ toString n ++ "\t ; "
+
+/-! ## the printed statement through asl's statement parser
+
+Domain: one statement as dasl prints it into `SrcLine` (no label field), possibly with a `;` comment; the address operand is a
+plain symbol name that is no register name (what `MakeSymbolic` returns), `callv` takes a decimal number.  Statement splitting is
+the target-independent part already modelled for the 6800 (`A6800.splitStmt`); the mnemonic is looked up in the generated
+`InstTable` of code87c800.c. -/
+
+/-- the comment is cut off at the first `;` (no quotes in the domain), trailing blanks are removed -/
+def stripComment (s : List Char) : List Char := s.takeWhile (fun c => c != ';')
+
+def trimRight (s : List Char) : List Char := (s.reverse.dropWhile A6800.isBlank).reverse
+
+/-- `DecodeAdr` takes such an operand for a 16-bit register -/
+def isReg16Name (s : List Char) : Bool := Deco87C.asmReg16Names.any (fun r => r.toList == s.map Char.toUpper)
+
+/-- an address expression of the domain: a symbol with its final-pass value -/
+def evalLabel (env : A6800.Env) (s : List Char) : Option Nat :=
+  if A6800.plainLabel s && !isReg16Name s then env s else none
+
+def decVal (s : List Char) : Option Nat :=
+  if s = [] ∨ ¬ s.all Char.isDigit then none else some (s.foldl (fun v c => v * 10 + (c.toNat - 48)) 0)
+
+/-- `LookupInstTable`: decoder and code argument of a mnemonic -/
+def fnOf (memo : List Char) : Option (Deco87C.Fn × Nat) :=
+  (Deco87C.instTable.find? (fun i => i.name.toList == memo.map Char.toUpper)).map (fun i => (i.fn, i.code))
+
+/-- the jump/call statement a statement without comment stands for (argument count checks of the decoders included) -/
+def parseClean (env : A6800.Env) (stmt : List Char) : Option JStmt :=
+  match fnOf (A6800.splitStmt stmt).1, (A6800.splitStmt stmt).2 with
+  | some (.jrs, _), [c, t] => (evalLabel env t).map (.jrs (String.ofList c))
+  | some (.jr, _), [t] => (evalLabel env t).map (.jr none)
+  | some (.jr, _), [c, t] => (evalLabel env t).map (.jr (some (String.ofList c)))
+  | some (.jpCall, code), [t] =>
+    if code = 0xfe then (evalLabel env t).map .jp else if code = 0xfc then (evalLabel env t).map .call else none
+  | some (.callp, _), [t] => (evalLabel env t).map .callp
+  | some (.callv, _), [t] => (decVal t).map .callv
+  | _, _ => none
+
+def parseStmt (env : A6800.Env) (stmt : List Char) : Option JStmt := parseClean env (trimRight (stripComment stmt))
+
+/-- the address value (for `callv` the vector number) of a statement -/
+def targetOf : JStmt → Nat
+  | .jrs _ t => t
+  | .jr _ t => t
+  | .jp t => t
+  | .call t => t
+  | .callp t => t
+  | .callv n => n
+
+/-- one source line at `pc`: the bytes asl emits, `none` = error (or outside the domain) -/
+def assembleText (env : A6800.Env) (pc : Nat) (stmt : List Char) : Option (List Nat) :=
+  match parseStmt env stmt with
+  | none => none
+  | some js =>
+    match encode pc js with
+    | none => none
+    | some bs => if pc + bs.length ≤ 0x10000 then some bs else none
 
 end AslModel.Dis.A87C
